@@ -21,6 +21,9 @@ def propose(g, model, name):
 def h_aggregate(w, a, op):
     obj, model = w.actors[a]
     width = op["w"]
+    if model.edges and max(k[0] for k in model.edges) // width > 300:
+        # [0, max time] would be split into more than 300 windows (times up to 10**12 occur): use a width that gives <= 40
+        width = max(k[0] for k in model.edges) // 40 + 1
     try:
         res = obj.aggregate(width)
     except Exception as e:  # noqa
@@ -57,7 +60,7 @@ def h_snapshots(w, a, op):
         res = obj.subhypergraph(tuple(win)) if win is not None else obj.subhypergraph()
     except Exception as e:  # noqa
         raise Violation("C03/derive/snapshots/raised", {"op": op, "exception": repr(e)})
-    lo, hi = (win if win is not None else (-1, 10**9))
+    lo, hi = (win if win is not None else (-1, float("inf")))
     times = sorted({t for (t, ns) in model.edges if lo <= t < hi})
     if not isinstance(res, dict) or sorted(res.keys()) != times:
         raise Violation("C03/derive/snapshots/times", {
